@@ -296,20 +296,30 @@ func init() {
 	reg("(*sync.Pool).Put", func(fr *frame, args []value) value { return nil })
 
 	// ---- sync/atomic
-	atomicLoad := func(fr *frame, args []value) value { return *args[0].(*value) }
-	atomicStore := func(fr *frame, args []value) value { *args[0].(*value) = args[1]; return nil }
+	atomicLoad := func(fr *frame, args []value) value {
+		E.preemptPoint(fr.g, "atomic load")
+		return *args[0].(*value)
+	}
+	atomicStore := func(fr *frame, args []value) value {
+		E.preemptPoint(fr.g, "atomic store")
+		*args[0].(*value) = args[1]
+		return nil
+	}
 	atomicAdd := func(fr *frame, args []value) value {
+		E.preemptPoint(fr.g, "atomic add")
 		p := args[0].(*value)
 		*p = Add((*p).(*Term), args[1].(*Term))
 		return *p
 	}
 	atomicSwap := func(fr *frame, args []value) value {
+		E.preemptPoint(fr.g, "atomic swap")
 		p := args[0].(*value)
 		old := *p
 		*p = args[1]
 		return old
 	}
 	atomicCAS := func(fr *frame, args []value) value {
+		E.preemptPoint(fr.g, "atomic compare-and-swap")
 		p := args[0].(*value)
 		var eq *Term
 		switch o := (*p).(type) {
@@ -334,10 +344,12 @@ func init() {
 		}
 	}
 	reg("(*sync/atomic.Value).Load", func(fr *frame, args []value) value {
+		E.preemptPoint(fr.g, "atomic.Value.Load")
 		s := (*args[0].(*value)).(structure)
 		return s[0]
 	})
 	reg("(*sync/atomic.Value).Store", func(fr *frame, args []value) value {
+		E.preemptPoint(fr.g, "atomic.Value.Store")
 		s := (*args[0].(*value)).(structure)
 		if args[1].(iface).t == nil {
 			goPanic("sync/atomic: store of nil value into Value")
@@ -558,6 +570,7 @@ func (e *Engine) lock(fr *frame, p *value, write bool) {
 	if p == nil {
 		goPanic("runtime error: invalid memory address or nil pointer dereference")
 	}
+	e.preemptPoint(fr.g, "Lock/RLock")
 	ls := e.lockState(p)
 	if write {
 		e.blockUntil(fr.g, "Lock at "+e.where(fr.g), func() bool { return !ls.writer && ls.readers == 0 })
@@ -571,6 +584,7 @@ func (e *Engine) lock(fr *frame, p *value, write bool) {
 }
 
 func (e *Engine) unlock(fr *frame, p *value, write bool) {
+	e.preemptPoint(fr.g, "Unlock/RUnlock")
 	ls := e.lockState(p)
 	if write {
 		if !ls.writer {
